@@ -10,7 +10,7 @@ def gram_d(al, be, ga):
 
 def cell(rng, kind=None, dmin=0.02, scaled=False):
     """valid cell with Gram factor D >= dmin; kinds: ortho, near, oblique, random"""
-    kind = kind or rng.choice(['near', 'oblique', 'random', 'random', 'ortho', 'nearortho', 'special'])
+    kind = kind or rng.choice(['near', 'oblique', 'random', 'random', 'ortho', 'nearortho', 'special', 'special', 'rhombo'])
     for _ in range(10000):
         a, b, c = (rng.uniform(2.0, 25.0) for _ in range(3))
         if kind == 'ortho':
@@ -25,7 +25,12 @@ def cell(rng, kind=None, dmin=0.02, scaled=False):
             a = rng.uniform(2.0, 25.0)
             b = a if rng.random() < 0.5 else b
             c = a if rng.random() < 0.3 else c
-            al, be, ga = (rng.choice([90.0, 90.0, 60.0, 120.0, 90 + rng.uniform(-8, 8)]) for _ in range(3))
+            # every multiple of 15 degrees that can occur (a table of exact cosines has a row for each of them)
+            al, be, ga = (rng.choice([90.0, 90.0, 60.0, 120.0, 30.0, 45.0, 75.0, 105.0, 135.0, 150.0, 90 + rng.uniform(-8, 8)]) for _ in range(3))
+        elif kind == 'rhombo':
+            # rhombohedral axes: three equal edges, three equal angles that are NOT 90 degrees ("all equal" is not "cubic")
+            b = c = a
+            al = be = ga = rng.choice([rng.uniform(40.0, 88.0), rng.uniform(92.0, 115.0), 60.0])
         elif kind == 'oblique':
             al, be, ga = (rng.uniform(35, 145) for _ in range(3))
             d = gram_d(al, be, ga)
@@ -125,3 +130,14 @@ def hkl(rng, m=12):
         h = [rng.randint(-m, m) for _ in range(3)]
         if any(h):
             return h
+
+
+def fresh_str(x):
+    """the same string in a new, non-interned object (what json / argparse / a config parser hand over): `x is LITERAL` is False for it"""
+    return ''.join(list(x)) if isinstance(x, str) and x else x
+
+
+def flag(value, k):
+    """a boolean flag as callers pass it: True/False, 1/0, numpy.bool_ (k selects the form)"""
+    import numpy as np
+    return [bool(value), int(bool(value)), np.bool_(bool(value))][k % 3]
